@@ -527,6 +527,17 @@ pub fn heavy_cases(seed: u64) -> Vec<(String, Case)> {
         };
         let (case, _) = make_case(&l, &c2, &mut sp, &ov, 0);
         out.push((format!("binary-1MiB-fold-{}", fold), case));
+        // 8 and 32 MiB through both owned body types (validly signed: the whole body is hashed)
+        for (mib, kind) in [(8usize, 0u8), (8, 1), (32, 0), (32, 1)] {
+            let ov = Overrides {
+                body_override: Some(vec![0xabu8; mib * 1_048_576]),
+                content_type_override: Some(b"application/octet-stream".to_vec()),
+                ..Default::default()
+            };
+            let (mut case, _) = make_case(&l, &c2, &mut sp, &ov, 0);
+            case.wire.body_kind = kind;
+            out.push((format!("binary-{}MiB-body-kind-{}-fold-{}", mib, kind, fold), case));
+        }
     }
     // header-sized cases: a 1 MiB signed header value, 100 000 Authorization parameters, 20 000 names in SignedHeaders,
     // 30 000 header lines under a required prefix
